@@ -1,13 +1,9 @@
 /-
 Line-protocol driver: one request per line on stdin, one response per line on stdout.
-Executes the model definitions the theorems are about.
+Executes the model definitions the theorems are about. Handlers: Comrak/Drv/All.lean.
 -/
-import Comrak.Drv.Util
-import Comrak.Drv.C19
-import Comrak.Drv.Html
+import Comrak.Drv.All
 open Comrak.Drv
-
-def handlers : List Handler := [Comrak.Drv.C19.handle, Comrak.Drv.Html.handle]
 
 def answer (line : String) : String :=
   match line.trimAscii.toString.splitOn " " with
